@@ -6,6 +6,8 @@ and over operations, built from `+`, `* n`, `n *` with every parenthesisation, u
 bounded size.  Oracle: a small reference evaluator (flatten + classify) compared, node by
 node, with what the real classes built (element identity by `id`, exact result type).
 Plain composites of probe moves are *called* and the call log is compared as well.
+Probe elements also return values that are truthy / falsy without being bool (None, 0,
+2, '', numpy bools, lists).
 """
 from __future__ import annotations
 
